@@ -80,10 +80,13 @@ pub fn ref_cov_path(w: i32, h: i32, xf: &Xf, path: &PathSpec, aa: bool) -> Resul
         // a non-invertible transform draws nothing (C11)
         return Ok(vec![0; (w * h).max(0) as usize]);
     }
+    // the path is mapped to device space first and filled under the identity: the reference does
+    // not ask the fill under test how it treats the current transform (bit-identical to the fill
+    // under T on a correct tree - that equivalence is C11's clause (i))
     guard(|| {
         let mut dt = DrawTarget::new(w, h);
-        dt.set_transform(&t);
-        dt.fill(&path.build(), &Source::Solid(SolidSource { r: 255, g: 255, b: 255, a: 255 }), &DrawOptions { blend_mode: BlendMode::SrcOver, alpha: 1.0, antialias: if aa { AntialiasMode::Gray } else { AntialiasMode::None } });
+        let dev = path.build().transform(&t);
+        dt.fill(&dev, &Source::Solid(SolidSource { r: 255, g: 255, b: 255, a: 255 }), &DrawOptions { blend_mode: BlendMode::SrcOver, alpha: 1.0, antialias: if aa { AntialiasMode::Gray } else { AntialiasMode::None } });
         dt.get_data().iter().map(|p| (p >> 24) as u8).collect()
     })
 }
